@@ -63,6 +63,9 @@ struct Engine {
     std::function<std::string(const CaseFile &)> classify; // "" = no known finding matches, else its id
 };
 int engine_main(int argc, char **argv, const Engine &e);
+// for programs that do not go through engine_main (libFuzzer targets): where to write statistics, and a flush
+void set_stats_path(const std::string &path, const std::string &engine, const std::string &worker);
+void flush_stats(const char *result);
 const std::string &out_dir();
 const std::string &worker_id();
 long opt_cases();                                      // --cases N (0 = engine default)
